@@ -1199,7 +1199,7 @@ fn sweep_tie_rules(ctx: &Ctx, tabs: &Tables, thorough: bool) -> Tally {
 }
 
 /// table + DST rule: the last table transition sits at delta from a rule transition
-pub fn sweep_junction(ctx: &Ctx, tabs: &Tables, thorough: bool, leap_only: bool) -> Tally {
+pub fn sweep_junction(ctx: &Ctx, tabs: &Tables, thorough: bool, leap_only: bool, light: bool) -> Tally {
     let cyc = ctx.cyc;
     let days = quick_days();
     let combos = quick_combos();
@@ -1245,7 +1245,7 @@ pub fn sweep_junction(ctx: &Ctx, tabs: &Tables, thorough: bool, leap_only: bool)
                             // leap-second variants: a record whose UTC instant sits at the rule transition -1/0/+1 (table x rule x
                             // leap seconds), on a subset
                             let mut leap_variants: Vec<Vec<(i64, i32)>> = if leap_only { vec![] } else { vec![vec![]] };
-                            if (i + j + k) % 8 == 0 && x > 4 * DAY28 {
+                            if !light && (i + j + k) % 8 == 0 && x > 4 * DAY28 {
                                 for (c0, step) in [(1i32, 1i32), (1, -1), (-1, -1), (-1, 1)] {
                                     for dpos in [-1i64, 0, 1] {
                                         let l1 = x + dpos + c0 as i64;
@@ -1465,7 +1465,9 @@ pub fn run_sweeps(ctx: &Ctx, tabs: &Tables, thorough: bool, light: bool) -> Tall
     // 2b'. more than 256 local time types
     total = total.merge(sweep_many_types(ctx, thorough));
     // 2b''. leap tables x offsets more than two record spacings apart
-    total = total.merge(crate::leap::sweep_wide_offsets(ctx, thorough));
+    if !light {
+        total = total.merge(crate::leap::sweep_wide_offsets(ctx, thorough));
+    }
     // 2c. both ends of the supported instant range
     total = total.merge(sweep_range_ends(ctx));
     // 3. rule only
@@ -1479,7 +1481,7 @@ pub fn run_sweeps(ctx: &Ctx, tabs: &Tables, thorough: bool, light: bool) -> Tall
     // 3c. first and last years of the rule arithmetic
     total = total.merge(sweep_rule_extreme_years(ctx));
     // 4. junction
-    total = total.merge(sweep_junction(ctx, tabs, thorough, false));
+    total = total.merge(sweep_junction(ctx, tabs, thorough, false, light));
     // real zones
     total = total.merge(sweep_corpus(ctx, light));
     // errors
